@@ -34,6 +34,12 @@ type GoBackNConn struct {
 	// sequence that we have received.
 	recvSeq uint8
 
+	// recvPartial holds the chunks of a message that a Recv call consumed
+	// before it timed out. The next Recv call continues from there.
+	// recvMu serialises Recv calls and guards recvPartial.
+	recvPartial []byte
+	recvMu      sync.Mutex
+
 	resendTicker *time.Ticker
 
 	recvDataChan chan *PacketData
@@ -208,10 +214,15 @@ func (g *GoBackNConn) Recv() ([]byte, error) {
 	default:
 	}
 
-	var (
-		b   []byte
-		msg *PacketData
-	)
+	g.recvMu.Lock()
+	defer g.recvMu.Unlock()
+
+	// Continue with the chunks that a previous call that timed out has
+	// already taken off the channel.
+	b := g.recvPartial
+	g.recvPartial = nil
+
+	var msg *PacketData
 
 	ticker := time.NewTimer(g.timeoutManager.GetRecvTimeout())
 	defer ticker.Stop()
@@ -221,6 +232,7 @@ func (g *GoBackNConn) Recv() ([]byte, error) {
 		case <-g.quit:
 			return nil, fmt.Errorf("cannot receive, gbn exited")
 		case <-ticker.C:
+			g.recvPartial = b
 			return nil, errRecvTimeout
 		case msg = <-g.recvDataChan:
 		}
